@@ -26,7 +26,9 @@ EXPR_KINDS = {'unset': None, 'int': 'n', 'float': 'f', 'bool': 'b', 'numstr': 'n
               # an int no float can hold (float() raises OverflowError): not a number the processors can be given
               'hugeint': 'G ** 400'}
 LABEL_KINDS = ['none', 'static_str', 'static_int', 'static_float', 'static_bool', 'expr', 'expr_global', 'failing',
-               'expr_tuple', 'expr_one_tuple', 'expr_none']
+               'expr_tuple', 'expr_one_tuple', 'expr_none',
+               # static values that are the default of their wire type, and a value that has no text
+               'static_zero', 'static_false', 'static_empty', 'expr_no_text']
 class HostBase(BaseException):
     pass
 
@@ -36,7 +38,13 @@ def boom_base():
 
 
 # the module also has globals named like two of the function's locals (n, s): the local is what the line sees
-HOST_GLOBALS = {'G': 100, 'boom_base': boom_base, '__name__': 'c17_host', 'n': 1000, 's': 'module-level s'}
+class NoText:
+    def __str__(self):
+        raise RuntimeError('this value has no text')
+    __repr__ = __str__
+
+
+HOST_GLOBALS = {'NOTEXT': NoText(), 'G': 100, 'boom_base': boom_base, '__name__': 'c17_host', 'n': 1000, 's': 'module-level s'}
 
 
 class EmptyRegistryProcessor(lab.RecMetricProcessor):
@@ -81,6 +89,14 @@ def label_spec(kind, i):
         return key, None, '(s,)'
     if kind == 'expr_none':
         return key, None, 'nothing'
+    if kind == 'static_zero':
+        return key, 0, None
+    if kind == 'static_false':
+        return key, False, None
+    if kind == 'static_empty':
+        return key, '', None
+    if kind == 'expr_no_text':
+        return key, None, 'NOTEXT'
     return None
 
 
